@@ -10,8 +10,11 @@ The driver performs the same MPI calls on every rank (MPI_Group_translate_ranks 
 MPI_Comm_rank/size, MPI_Comm_compare), and for Comm_dup sends two messages with equal tags on the two communicators ("messages never
 cross communicators"). Python compares.
 
-Mutations tried (tools/mutbuild.sh, quick tier) are listed at the end of this docstring by the last editing session.
-MUTATIONS
+Mutation evidence (tools/mutbuild.sh worktree, quick tier, one mutation at a time; all gave exit 1 with a VIOLATION line):
+  * Group::difference keeps the members that ARE in the second group (== flipped to !=)      -> caught, C32:difference:members (23981 cases)
+  * Comm::split no longer sorts the members of a color by (key, old rank) (std::sort removed) -> caught, C32:split:order (2709 cases)
+  * is_rank_in_range stops one rank short of `last` in range triplets                         -> caught, C32:range_incl:members / C32:range_excl:members
+  Fix validation: with /verif/proposed/fix-C32-intersection-order.diff applied the check exits 0 with no KNOWN-FINDING line.
 """
 import json
 import vlib
